@@ -12,7 +12,7 @@ for mp in sorted(glob.glob(os.path.join(V, "seeded", "*", "meta.json"))):
     rows.append((name, d["summary"].replace("|", "/").replace("\n", " ")[:230], "yes" if v.get("confirmed") else "no (see note)", caught_by or "-", missed_by or "-", v.get("note", "")[:400].replace("|", "/"), v.get("date", "")))
 with open(os.path.join(V, "seeded", "RESULTS.md"), "w") as f:
     f.write("# Seeded changes and the checks that report them\n\nProduced by `selftest/mk_results.py` from the records of `selftest/sweep_seed.py` (confirmation in a scratch worktree: demo passes without / fails with the change, "
-            "78-test suite passes with it; then `git -C /repo apply`, quick check, `git -C /repo checkout -- .`).\n\n")
+            "78-test suite passes with it; then `git -C /repo apply`, quick check, `git -C /repo checkout -- .` -- or, for re-sweeps of older seeds run side by side, the same in a scratch worktree of /repo's HEAD that the check rebuilds from (VP_REPO); each meta.json says which).\n\n")
     f.write("| seed | change (summary, truncated) | confirmed (demo + suite) | reported by | not reported by | note | date |\n|---|---|---|---|---|---|---|\n")
     for r in rows:
         f.write("| " + " | ".join(r) + " |\n")
